@@ -567,6 +567,8 @@ class BuiltinMixin:
         matched = hook(self, 'matched', s, pat, name) if hook is not None else None
         if matched is None:
             try:
+                if self.options.get('regex') == 'uninterp' and not z3.is_string_value(z3.simplify(s.t)):
+                    raise pm.RegexUnsupported('option')
                 r = pm.regex_to_z3(pat.pattern, pat.flags & ~_re.UNICODE, name)
                 matched = z3.InRe(s.t, r)
             except pm.RegexUnsupported:
@@ -676,6 +678,8 @@ class BuiltinMixin:
         pos_before = p.pos
         p._counter_at_comp = p.counter
         saved_caches = (set(p.__dict__.get('_facts', set())), dict(p.__dict__.get('_divmod', {})))
+        saved_more = (set(p.fact_ids), dict(p.str_defs),
+                      {k: (b, dict(reg)) for k, (b, reg) in p.__dict__.get('multipliers', {}).items()})
         try:
             item = self.iter_item(ctx, i)
             self.assign(gen.target, item)
@@ -694,6 +698,7 @@ class BuiltinMixin:
         del p.pc[mark:]
         p.solver.pop()
         p._facts, p._divmod = saved_caches
+        p.fact_ids, p.str_defs, p.multipliers = saved_more
         # generalise over i: every fresh constant introduced while evaluating the
         # element becomes a function of i
         body_terms = facts + conds + ([tv] if tv is not None else []) + \
